@@ -92,12 +92,16 @@ static CO_ERR COTPdoEventWrite(struct CO_OBJ_T *obj, struct CO_NODE_T *node, voi
         if (tid < 0) {
             return (CO_ERR_TYPE_WR);
         }
+        pdo->EvTmr = -1;
     }
     if (pdo->InTmr >= 0) {
         tid = COTmrDelete(tmr, pdo->InTmr);
         if (tid < 0) {
             return (CO_ERR_TYPE_WR);
         }
+        /* the inhibit time is finished with this write access */
+        pdo->InTmr  = -1;
+        pdo->Flags &= ~CO_TPDO_FLG__I_;
     }
 
     /* start new timer for event when TPDO COB-ID is enabled */
@@ -116,6 +120,12 @@ static CO_ERR COTPdoEventWrite(struct CO_OBJ_T *obj, struct CO_NODE_T *node, voi
                                         (void*)pdo);
             }
         }
+    }
+
+    /* send a transmission which is delayed by the finished inhibit time */
+    if ((pdo->Flags & CO_TPDO_FLG___E) != 0) {
+        pdo->Flags &= ~CO_TPDO_FLG___E;
+        COTPdoTx(pdo);
     }
     return (CO_ERR_NONE);
 }
